@@ -52,8 +52,10 @@ def oracle_orth(ck, dims, J, name, shape):
     (g,) = torch.autograd.grad([yl] + list(yh), x, cots)
     with torch.no_grad():
         s = inv((cots[0], cots[1:]))
+    if tuple(s.shape) != tuple(g.shape):
+        ck.fail(desc + ': inverse(g) has shape %s, backprop(g) has shape %s' % (tuple(s.shape), tuple(g.shape)), replay); return 'shape'
     e2 = float((g - s).abs().max())
-    if tuple(s.shape) != tuple(g.shape) or e2 > tol * max(1.0, float(s.abs().max())):
+    if e2 > tol * max(1.0, float(s.abs().max())):
         ck.fail(desc + ': |backprop(g) - inverse(g)| = %.3g' % e2, replay); return 'transpose'
     ck.oracle_ok((dims, J, str(name), tuple(shape)), group='orth%dd' % dims,
                  sample={'wavelet': name, 'J': J, 'shape': list(shape), 'AtA_minus_I': e1, 'energy_defect': abs(en - ex), 'backprop_minus_inverse': e2})
